@@ -952,6 +952,16 @@ func main() {
 				j := job{Prog: merged.Name, Text: merged.Text, Wasm: hex.EncodeToString(binaryencoding.EncodeModule(am)), Mods: []string{hex.EncodeToString(inner.Bytes())},
 					Entry: "f0", Arg: 1, HostCB: []int{}, Engine: eng, Cause: cause, Timing: "during", DelayUs: 3000, Code: 7}
 				plan = append(plan, planned{j, merged, mp, false})
+				if cause == "close" {
+					// every exit code, 0 (plain Close) included: "closed with exit code 0" and "not closed" differ only in
+					// the flag bits of the closed word
+					for _, code := range codes {
+						if code != 7 {
+							j.Code = code
+							plan = append(plan, planned{j, merged, mp, false})
+						}
+					}
+				}
 			}
 		}
 	}
